@@ -269,3 +269,15 @@ _LIM_RULE = (" ; lookups engine behind a SendLimiter that limits (lookups_limite
              "RunLookupsSends.rls_take; no traversal query after the first announce_peer)")
 PROPS["C16"]["rule"] += _LIM_RULE
 PROPS["C14"]["rule"] += " ; lookups engine behind a SendLimiter that limits and with nodes refusing announce_peer / put (see C16)"
+
+# A dead or wedged node: the engines report it once, as a C01 oracle line (process-died:*, serve-loop-stuck*,
+# serve-loop-blocked-*, api-does-not-return*, probe-ping-not-answered*). On such a node nothing that the liveness clauses of
+# C08 (queries are answered), C14 (queries and lookups end), C16 (announces finish) promise happens any more, so the checks
+# of those properties count these lines as violations of their own (key prefix node-dead-or-wedged:).
+NODE_DOWN_VIOLATES = {"C08", "C14", "C16"}
+NODE_DOWN_KEYS = ("process-died", "serve-loop-stuck", "serve-loop-blocked", "api-does-not-return", "probe-ping-not-answered")
+
+# engine `defaults` (srv_defaults.go, oracle only): the budget configured through the exported default limiter
+PROPS["C20"]["engines"] = PROPS["C20"]["engines"] + ["defaults"]
+PROPS["C20"]["rule"] += (" ; defaults engine: dht.DefaultSendLimiter reassigned / adjusted in place before servers are built with "
+                         "NewDefaultServerConfig() or a config without a limiter: 20 pings, at most the configured budget answered")
